@@ -555,6 +555,13 @@ func runPar(in *input, emit func(interface{})) (discard bool, hung bool) {
 					}
 				}
 				ids[waiting[best]].open()
+				if hArr != nil && waiting[best] == int64(5000+*st.Hold) {
+					// its worker must be at the schedule point before anybody else answers
+					select {
+					case <-hArr:
+					case <-time.After(3 * time.Second):
+					}
+				}
 				waiting = append(waiting[:best], waiting[best+1:]...)
 			}
 		}
